@@ -21,11 +21,16 @@ def main() -> int:
     std_cfgs = [Cfg("O0", "s390x", False), Cfg("O2", "s390x", False), Cfg("O2", "s390x", True), Cfg("O2", "ppc64", False), Cfg("O1", "mips64", False)]  # thorough: two more big-endian data layouts
     if q:
         std_cfgs = [Cfg("O2", "s390x", False), Cfg("O0", "s390x", True)]
+    # toolchains that announce big-endian without __BYTE_ORDER__ (ACLE Arm, legacy TI ARM CGT, generic __BIG_ENDIAN__): the
+    # runtime library must still select its big-endian paths from the other macros of its detection list
+    legacy = [Cfg("O2", "s390x", False, ("U:__BYTE_ORDER__", m)) for m in ("__big_endian__", "__ARM_BIG_ENDIAN", "__BIG_ENDIAN__")]
+    legacy = legacy[:1] if q else legacy
     op_cfgs = [Cfg("O2", "s390x", False, (), True, "both"), Cfg("O2", "x86_64", False, ("BP_BIG_ENDIAN",), True, "both", False), Cfg("O2", "s390x", False, (), True, "big")]
     if not q:
         op_cfgs += [Cfg("O2", "ppc64", False, (), True, "both"), Cfg("O0", "mips64", False, (), True, "big")]
     gsel = grid[::3] if q else grid
     jobs_rt = [(c, [cfg], ("encode", "decode")) for c in shape + gsel for cfg in (std_cfgs if "large" not in c.tags else std_cfgs[:1])]
+    jobs_rt += [(c, [cfg], ("encode", "decode")) for c in [x for x in shape + gsel if "large" not in x.tags][::(6 if q else 2)] for cfg in legacy]
     jobs_op = [(c, [cfg], ("encode", "decode")) for c in trad + gsel[::2] for cfg in (op_cfgs if "large" not in c.tags else op_cfgs[:1])]
     meta = {
         "functions_encoded": cenc.C_FILES,
